@@ -12,10 +12,10 @@ ITF_NAMES = ['IApi', 'ICord', 'ILed', 'IThing', 'I_x']
 EXT_NAMES = ['MyInt', 'PData', 'T', 'Str', 'x_t']
 ENUM_NAMES = ['Result', 'State', 'E']
 CTYPES = ['int', 'long', '::vt::Ext<1>', '::vt::Ext<2>', '::vt::Ext<3>']
-IN_EVENTS = ['Claim', 'Release', 'Start', 'Stop', 'get', 'Bye', 'E2']
-OUT_EVENTS = ['Ok', 'Fail', 'Done', 'evt', 'Tick']
-FORMALS = ['a', 'b', 'c', 'val', 'p1']
-PORT_NAMES = ['api', 'aux', 'cord', 'led', 'p', 'q2', 'x']
+IN_EVENTS = ['Claim', 'Release', 'Start', 'Stop', 'get', 'Bye', 'E2', 'ClaimAll', 'Rel', 'Sto', 'getX']   # incl. names that are substrings/prefixes of others
+OUT_EVENTS = ['Ok', 'Fail', 'Done', 'evt', 'Tick', 'OkDone', 'ev']
+FORMALS = ['a', 'b', 'c', 'val', 'p1', 'aa', 'va']
+PORT_NAMES = ['api', 'aux', 'cord', 'led', 'p', 'q2', 'x', 'ap', 'apix', 'le']
 PREFER_SHORT = False        # spell(): take the shortest uniquely resolving spelling
 
 
@@ -408,8 +408,22 @@ def faults(rng, case):
     return out
 
 
-def build_real(case):
-    """run the real parser + Builder; returns {"ok": {"files": [...]}} | {"err": tag}"""
+def flipped_semantics(case):
+    """the same model with the other runtime semantics on every side (another valid configuration)"""
+    c = copy.deepcopy({k: v for k, v in case.items() if k != '_info'})
+    p = c['cfg']['ports']
+    p['rsts'], p['rmts'] = p['rmts'], p['rsts']
+    if not c['cfg'].get('multiclient'):
+        p['psts'], p['pmts'] = p['pmts'], p['psts']
+    if '_info' in case:
+        c['_info'] = case['_info']
+    return c
+
+
+def build_real(case, shared=None):
+    """run the real parser + Builder; returns {"ok": {"files": [...]}} | {"err": tag}.
+    `shared`: a dict that carries one parsed FileContents and one Builder object over several builds of the
+    same model (what a build script does: parse once, build several shells)"""
     use_repo_src()
     from dznpy.json_ast import DznJsonAst
     from dznpy.adv_shell import Builder
@@ -419,7 +433,12 @@ def build_real(case):
     from harness.props.c03 import mk_portscfg
     cfg = case['cfg']
     try:
-        fc = DznJsonAst(json_contents=json.dumps(case['ast'])).process()
+        if shared is not None and shared.get('ast') == case['ast']:
+            fc = shared['fc']
+        else:
+            fc = DznJsonAst(json_contents=json.dumps(case['ast'])).process()
+            if shared is not None:
+                shared['ast'], shared['fc'] = case['ast'], fc
         mc = None
         if cfg.get('multiclient'):
             m = cfg['multiclient']
@@ -431,7 +450,11 @@ def build_real(case):
                              copyright=cfg.get('copyright'),
                              support_files_ns_prefix=NamespaceIds(list(cfg['prefix'])) if cfg.get('prefix') is not None else None,
                              creator_info=cfg.get('creator'))
-        res = Builder().build(conf)
+        if shared is not None:
+            builder = shared.setdefault('builder', Builder())
+        else:
+            builder = Builder()
+        res = builder.build(conf)
     except RecursionError:
         return {'err': 'internal:RecursionError'}
     except Exception as e:  # noqa
@@ -439,6 +462,6 @@ def build_real(case):
     return {'ok': {'files': [{'name': f.filename, 'contents': f.contents} for f in res.files]}}, res
 
 
-def build_impl(case):
-    r = build_real(case)
+def build_impl(case, shared=None):
+    r = build_real(case, shared)
     return r[0] if isinstance(r, tuple) else r
